@@ -321,6 +321,7 @@ func (srv *server) lockDuplicatedID(c *client) (oldSession *gmqtt.Session, err e
 			var oldClient *client
 			oldClient = srv.clients[oldSession.ClientID]
 			srv.mu.Unlock()
+			verifYield("lockdup.unlocked")
 			if oldClient == nil {
 				srv.mu.Lock()
 				break
@@ -333,6 +334,7 @@ func (srv *server) lockDuplicatedID(c *client) (oldSession *gmqtt.Session, err e
 			oldClient.setError(codes.NewError(codes.SessionTakenOver))
 			oldClient.Close()
 			<-oldClient.closed
+			verifYield("lockdup.oldclosed")
 			continue
 		}
 		break
@@ -576,6 +578,7 @@ func (srv *server) unregisterClient(client *client) {
 					case <-t.C:
 						send = true
 					}
+					verifYield("will.before_lock")
 					srv.mu.Lock()
 					defer srv.mu.Unlock()
 					delete(srv.willMessage, clientID)
@@ -1536,6 +1539,7 @@ func (srv *server) Stop(ctx context.Context) error {
 			c.Close()
 		}
 		srv.mu.Unlock()
+		verifYield("stop.closed_clients")
 
 		done := make(chan struct{})
 		if len(chs) != 0 {
